@@ -1,6 +1,7 @@
 SPECIFICATION LiveSpec
 CONSTANTS Sender = {"s1", "s2"}
           MaxFaults = 1
+          MaxCfg = 0
           QueueMode = FALSE
           QCap = 2
           MaxConn = 3
